@@ -1066,14 +1066,7 @@ func c11NoCrash(c *Check) {
 			nA++
 			c.SawFunc(fi.Name())
 			uses := func(q Pt) bool {
-				found := false
-				inspectNoLit(q.Node(), func(x ast.Node) bool {
-					if s, ok := x.(*ast.SelectorExpr); ok && objOf(info, s.X) == v {
-						found = true
-					}
-					return true
-				})
-				return found
+				return derefsUnguarded(info, q.Node(), v)
 			}
 			// a use reachable while v may be nil: prune the edges that establish v != nil
 			path, f := r.F.ReachRefined(pt, v, true, false, uses, nil)
@@ -1602,7 +1595,9 @@ func c11BucketSet(c *Check) {
 			}
 			b := objOf(info, as.Lhs[0])
 			msg = ""
-			if path, f := r.F.ReachRefined(pt, b, true, false, orPt(okExit, inner), nil); f {
+			// (a call through the bucket in the right operand of `b != nil && …` does not run for a missing bucket)
+			innerDeref := func(q Pt) bool { return inner(q) && derefsUnguarded(info, q.Node(), b) }
+			if path, f := r.F.ReachRefined(pt, b, true, false, orPt(okExit, innerDeref), nil); f {
 				msg = "when the table is full (no bucket) " + m.name + " succeeds or dereferences the missing bucket: " + r.F.Describe(path)
 			}
 		}
@@ -2133,4 +2128,34 @@ func c11OutcomeMatchesCase(c *Check) {
 	if n < 4 {
 		c.Fail("R9", "selects", token.NoPos, "undecided: fewer than two acquire/give-up selects found in the limiters package")
 	}
+}
+
+
+// derefsUnguarded: node n selects through v (v.f, v.m()) somewhere that is not the right operand of `v != nil && …`
+// (nor of `v == nil || …`) – short-circuit evaluation is a nil test.
+func derefsUnguarded(info *types.Info, n ast.Node, v types.Object) bool {
+	found := false
+	var walk func(x ast.Node)
+	walk = func(x ast.Node) {
+		if x == nil || found {
+			return
+		}
+		inspectNoLit(x, func(y ast.Node) bool {
+			if found {
+				return false
+			}
+			if be, ok := y.(*ast.BinaryExpr); ok && (be.Op == token.LAND || be.Op == token.LOR) {
+				if ns, isTest := nilTest(info, be.X, v); isTest && ((be.Op == token.LAND && ns == 1) || (be.Op == token.LOR && ns == 0)) {
+					walk(be.X)
+					return false // the right operand only runs when v is not nil
+				}
+			}
+			if s, ok := y.(*ast.SelectorExpr); ok && objOf(info, s.X) == v {
+				found = true
+			}
+			return true
+		})
+	}
+	walk(n)
+	return found
 }
